@@ -17,12 +17,16 @@ smw = KaniUnit("c03_smw", CORE, modules=[dict(file=CORE + "/src/model/state/stat
 smw.native_witnesses = ["c03_wit_distance_accumulates_the_sum_across_units", "c03_wit_energy_and_time_accumulate_the_sum_across_units"]
 sm = VerusUnit("c03_statemodel", "c03_statemodel", rlimit=60, paired_kani=(smw, []))
 cm = VerusUnit("c07_costmodel", "c07_costmodel", rlimit=30)
-sv = VerusUnit("c13_single_via", "c13_single_via", rlimit=60)
+kw = KaniUnit("c01_wit", CORE, modules=[dict(file=CORE + "/src/algorithm/search/search_instance.rs", src="world.rs"),
+                                       dict(file=CORE + "/src/algorithm/search/search_algorithm.rs", src="c01_wit.rs")], harnesses=[])
+kw.native_witnesses = ["c01_wit_single_via_routes_are_walks", "c03_wit_ksp_routes_report_their_own_retraversal"]
+sv = VerusUnit("c13_single_via", "c13_single_via", rlimit=60, paired_kani=(kw, []))
+yr = VerusUnit("c13_yen_run", "c13_yen_run", rlimit=60, paired_kani=(kw, []))
 sp = VerusUnit("c02_speed", "c02_speed", rlimit=30)
-UNITS = [heading, turn, sm, cm, sv, sp, smw]
+UNITS = [heading, turn, sm, cm, sv, yr, sp, smw, kw]
 EXPLANATION = ("turn classification kernels (complete over i16); StateModel get/set/add under contract (frame + `add` grows the slot by the increment converted to the feature's unit) and the accumulation lemma; "
                "per-edge state/cost split (EdgeTraversal::forward/reverse_traversal, Verus, see C07 units); the speed-table traversal model (unit c02_speed): an edge adds its length (converted) to the distance slot "
                "and length / its own table speed to the time slot, nothing else changes; the reverse half of a bidirectional route is re-traversed edge by edge in travel order, each edge after its TRUE predecessor "
-               "and from the state that predecessor left (reorient_reverse_route, unit c13_single_via)")
+               "and from the state that predecessor left (reorient_reverse_route, unit c13_single_via); every route of Yen's driver is `chained`: from its second edge on, each edge is the traversal of that edge after the edge actually before it, from the state that edge left (unit c13_yen_run; failed on the pinned code, fixed)")
 NOT_DECIDED = "the response summary produced through serde_json in the output plugin; the energy traversal models' speed reconstruction; turn-delay engine lookup tables"
 ASSUMPTIONS = ["alloc::fmt::format stubbed on error paths"]
